@@ -117,7 +117,11 @@ claimed = {
     'C14': ('proof', 'PARTIAL proof, decided end to end by exploration. Proved in Coq: in every accepted trace at most one write guard per node, and a '
             'thread holding any write guard takes no waiting step; C14c_*: every node whose word is write-locked at the end of an accepted '
             'trace has exactly one holder, that thread is not in a waiting step, hence no accepted trace ends with every unfinished thread '
-            'spinning on a still-locked node (no wait cycle, for any number of threads and nodes). NOT a Coq theorem: '
+            'spinning on a still-locked node (no wait cycle, for any number of threads and nodes). C14d_*: progress accounting - every failed '
+            'check / failed upgrade of a section is charged to a successful write acquisition of the SAME node after the section was opened '
+            '(by another thread when the restarted thread made none), a waiting reader faces a lock with exactly one holder, and in any '
+            'period without write acquisitions entered with no guard held every read-lock sees a non-locked word and every validation '
+            'succeeds: an operation running alone neither waits nor restarts (needs no help from earlier threads). NOT a Coq theorem: '
             'termination of the restart loops under fair schedules. Decided on the implementation: the scheduler reports deadlock (all '
             'unfinished threads spinning) or an exceeded step budget for every explored schedule, and after every execution a '
             'single-threaded sweep (get of every key, insert+remove probes next to every key, full scan) must terminate; allocation-failure '
